@@ -2,7 +2,9 @@
 (* C18 mode (a): program sets for free-running goroutines under the race detector.  Every unordered pair of operation kinds is assigned to *)
 (* different goroutines at least once (N = 2), plus mixed sets for N in {3, 8, 64}; GOMAXPROCS in {2, 4, 16}.                             *)
 EXTENDS Naturals, Sequences, FiniteSets, TLC, Json
-CONSTANTS Thorough, Seed
+CONSTANTS Thorough, Seed,
+          Focus      \* {} = all operation kinds; otherwise only program sets made of these kinds (a check other than C18 running
+                     \* the kinds its own property is about: key agreement for C07 / C09)
 VARIABLES stage, a, b
 
 Kinds == << "encode", "decode_shared", "protect_unprotect", "ike_derive", "derive_child", "dh", "transforms", "eap", "rand", "new_ike_sa", "strings", "builders", "cipher", "transform_stress", "codec_stress", "eap_stress", "keys_stress", "encode_fail", "rand_stress", "decode_unknown", "reencode_shared" >>
@@ -21,10 +23,11 @@ SameSet(k, n) == [fam |-> "race", n |-> n, gomaxprocs |-> IF n > 16 THEN 16 ELSE
                   programs |-> [g \in 1..n |-> Rep(Kinds[k], 3)]]
 SameKinds == IF Thorough THEN 1..NK ELSE { k \in 1..NK : Kinds[k] \in {"rand", "rand_stress", "encode_fail", "transform_stress", "keys_stress", "new_ike_sa", "decode_unknown", "dh"} }
 
+InFocus(k) == Focus = {} \/ Kinds[k] \in Focus
 Init == stage = 0 /\ a = 0 /\ b = 0
-Next == \/ stage = 0 /\ stage' = 1 /\ a' \in 1..NK /\ b' \in 1..NK /\ a' <= b'
-        \/ stage = 0 /\ stage' = 1 /\ a' \in {3, 8, 64} /\ b' \in (IF Thorough THEN 100..112 ELSE 100..102)
-        \/ stage = 0 /\ stage' = 1 /\ a' \in SameKinds /\ b' \in {216, 264}
+Next == \/ stage = 0 /\ stage' = 1 /\ a' \in 1..NK /\ b' \in 1..NK /\ a' <= b' /\ InFocus(a') /\ InFocus(b')
+        \/ stage = 0 /\ stage' = 1 /\ Focus = {} /\ a' \in {3, 8, 64} /\ b' \in (IF Thorough THEN 100..112 ELSE 100..102)
+        \/ stage = 0 /\ stage' = 1 /\ a' \in (IF Focus = {} THEN SameKinds ELSE { k \in 1..NK : InFocus(k) }) /\ b' \in {216, 264}
         \/ stage = 1 /\ UNCHANGED << stage, a, b >>
 Emit == stage = 1 => PrintT(ToJson(IF b >= 200 THEN SameSet(a, b - 200) ELSE IF b >= 100 THEN BigSet(a, b - 100) ELSE PairSet(a, b)))
 Sound == TRUE
